@@ -21,13 +21,34 @@ def specPType : PType → Order.PType
 def specRep : Rep → Schema.Rep
   | .required => .required | .optional => .optional | .repeated => .repeated
 
-/-- the schema element of a column: name, repetition, physical type, type_length as given -/
+def specUnit : ThriftParquet.TimeUnit → Schema.AnnotTimeUnit
+  | .millis => .millis | .micros => .micros | .nanos => .nanos
+
+/-- a `carquet_logical_type_t` in the terms of parquet.thrift's LogicalType union: id UNKNOWN (0) is
+"no logical type"; `CARQUET_LOGICAL_NULL` is the union's member 11 (NullType) -/
+def specLogical : ThriftParquet.LogicalType → Option Schema.Annotation
+  | .unknown => none
+  | .string => some .string | .map => some .map | .list => some .list | .enum => some .enum
+  | .decimal s p => some (.decimal s p)
+  | .date => some .date
+  | .time utc u => some (.time utc (specUnit u))
+  | .timestamp utc u => some (.timestamp utc (specUnit u))
+  | .integer bw sg => some (.integer bw sg)
+  | .null => some .nullType | .json => some .json | .bson => some .bson | .uuid => some .uuid
+  | .float16 => some .float16
+
+/-- the logical type a column was created with, as the file must state it: a NULL `logical_type`
+pointer and id UNKNOWN both mean "none" -/
+def specLogicalOf (c : Col) : Option Schema.Annotation := c.logical.bind specLogical
+
+/-- the schema element of a column: name, repetition, physical type, type_length as given, no converted
+type, and the logical type the column was created with -/
 def specLeafNode (c : Col) : Schema.Node :=
-  .leaf ⟨c.name, some (specRep c.rep), some c.ptype.code, (c.typeLen : Int), none⟩
+  .leaf ⟨c.name, some (specRep c.rep), some c.ptype.code, (c.typeLen : Int), none, specLogicalOf c⟩
 
 /-- the schema tree of a written file: a root group named "schema" without repetition -/
 def specSchemaOf (cols : List Col) : Schema.Node :=
-  .group ⟨"schema", none, none, 0, none⟩ (cols.map specLeafNode)
+  .group ⟨"schema", none, none, 0, none, none⟩ (cols.map specLeafNode)
 
 /-- entries of a flat column from its definition levels and dense values: an entry carries the
 next value exactly when its level is the maximum -/
